@@ -220,8 +220,41 @@ def large_sources():
     return out
 
 
+def check_many_sources(case, stats):
+    """one enumeration over more files than the process may hold open at once (every file is closed as soon as it is read)"""
+    import resource
+    n = case["files"]
+    soft, hard = resource.getrlimit(resource.RLIMIT_NOFILE)
+    paths = []
+    try:
+        for i in range(n):
+            p = "many%d-%d.feature" % (os.getpid(), i)
+            with open(p, "w", encoding="utf8", newline="") as f:
+                f.write("Feature: f%d\n Scenario: s\n  Given x%d\n" % (i, i))
+            paths.append(p)
+        resource.setrlimit(resource.RLIMIT_NOFILE, (min(case["limit"], soft), hard))
+        try:
+            ev = gh.GherkinEvents(gh.GherkinEvents.Options(False, False, True))
+            count = 0
+            names = []
+            for se in gh.SourceEvents(paths).enum():
+                for env in ev.enum(se):
+                    count += 1
+                    names.append(env["pickle"]["uri"])
+        finally:
+            resource.setrlimit(resource.RLIMIT_NOFILE, (soft, hard))
+        stats.case(("many-sources", n), True, sample=case)
+        if names != paths:
+            raise Violation(case, "a stream of %d sources yielded pickles for %d of them (order preserved: %s)" % (n, count, names == paths[:len(names)]))
+    finally:
+        for p in paths:
+            with contextlib.suppress(OSError):
+                os.unlink(p)
+
+
 def unit_corpus(a):
     stats = Stats()
+    sweep(stats, [{"sub": "many-sources", "files": 400, "limit": 128}], check_many_sources)
     texts = noisy.corpus_texts()
     cases = []
     for big in large_sources():
@@ -248,6 +281,8 @@ def check_big(case, stats):
 def replay(case, stats):
     if case["sub"] == "big":
         return check_big(case, stats)
+    if case["sub"] == "many-sources":
+        return check_many_sources(case, stats)
     return check_stream(case, stats)
 
 
